@@ -178,6 +178,10 @@ pub struct Gc<T: Default + Reset + Traceable> {
     /// Weak reference to space - used to check if space is still alive before accessing ptr
     /// This prevents use-after-free when Gc outlives the Space (e.g., during interpreter shutdown)
     space: Weak<RefCell<Space<T>>>,
+
+    /// Verification hook: generation of the slot when this handle was created
+    #[cfg(tsrun_verif)]
+    generation: u32,
 }
 
 impl<T: Default + Reset + Traceable> PartialEq for Gc<T> {
@@ -195,13 +199,28 @@ impl<T: Default + Reset + Traceable> Hash for Gc<T> {
 impl<T: Default + Reset + Traceable> Eq for Gc<T> {}
 
 impl<T: Default + Reset + Traceable> Gc<T> {
+    /// Verification hook: report a use of this handle after its slot was swept or reused.
+    #[cfg(tsrun_verif)]
+    fn verif_check_stale(&self, event: &str) {
+        if self.space.upgrade().is_some() {
+            let gc_box = unsafe { self.ptr.as_ref() };
+            if gc_box.generation.get() != self.generation {
+                crate::verif_hooks::stale_handle(event, gc_box.index);
+            }
+        }
+    }
+
     /// Borrow the inner data immutably
     pub fn borrow(&self) -> Ref<'_, T> {
+        #[cfg(tsrun_verif)]
+        self.verif_check_stale("borrow");
         unsafe { self.ptr.as_ref().data.borrow() }
     }
 
     /// Borrow the inner data mutably
     pub fn borrow_mut(&self) -> RefMut<'_, T> {
+        #[cfg(tsrun_verif)]
+        self.verif_check_stale("borrow_mut");
         unsafe { self.ptr.as_ref().data.borrow_mut() }
     }
 
@@ -247,6 +266,8 @@ impl<T: Default + Reset + Traceable> Clone for GcPtr<T> {
 
 impl<T: Default + Reset + Traceable> Clone for Gc<T> {
     fn clone(&self) -> Self {
+        #[cfg(tsrun_verif)]
+        self.verif_check_stale("clone");
         // Increment ref_count (only if space is still alive)
         if let Some(_space) = self.space.upgrade() {
             let gc_box = unsafe { self.ptr.as_ref() };
@@ -258,6 +279,8 @@ impl<T: Default + Reset + Traceable> Clone for Gc<T> {
         Self {
             ptr: self.ptr,
             space: self.space.clone(),
+            #[cfg(tsrun_verif)]
+            generation: self.generation,
         }
     }
 }
@@ -273,6 +296,12 @@ impl<T: Default + Reset + Traceable> Drop for Gc<T> {
 
         // Now safe to access the GcBox
         let gc_box = unsafe { self.ptr.as_ref() };
+
+        #[cfg(tsrun_verif)]
+        if gc_box.generation.get() != self.generation && !gc_box.pooled.get() {
+            // the slot has a new tenant: this drop decrements the tenant's count
+            crate::verif_hooks::stale_handle("drop-after-reuse", gc_box.index);
+        }
 
         // Check if this Gc is from a different generation (object was reused)
         // In that case, don't affect ref_count - this Gc is stale
@@ -352,6 +381,10 @@ pub struct GcBox<T: Default + Reset + Traceable> {
 
     /// Whether this object is in the pool (dead)
     pooled: Cell<bool>,
+
+    /// Verification hook: incremented each time the slot is pooled
+    #[cfg(tsrun_verif)]
+    generation: Cell<u32>,
     // Generation counter - incremented each time slot is reused from pool.
     // Old Gc pointers with different generations don't affect ref_count.
     // generation: Cell<u32>,
@@ -364,6 +397,8 @@ impl<T: Default + Reset + Traceable> GcBox<T> {
             data: RefCell::new(data),
             ref_count: Cell::new(0),
             pooled: Cell::new(false),
+            #[cfg(tsrun_verif)]
+            generation: Cell::new(0),
             // generation: Cell::new(0),
         }
     }
@@ -546,6 +581,8 @@ impl<T: Default + Reset + Traceable> Space<T> {
         Gc {
             ptr,
             space: self.self_weak.clone(),
+            #[cfg(tsrun_verif)]
+            generation: unsafe { ptr.as_ref() }.generation.get(),
         }
     }
 
@@ -565,6 +602,8 @@ impl<T: Default + Reset + Traceable> Space<T> {
 
         // Mark as pooled (reset already called in sweep or will be called on reuse)
         gc_box.pooled.set(true);
+        #[cfg(tsrun_verif)]
+        gc_box.generation.set(gc_box.generation.get().wrapping_add(1));
 
         // Add pointer to pool for reuse
         self.free_list.push(ptr);
